@@ -208,6 +208,39 @@ fn spellings(v: &Value, max_tokens: usize) -> Vec<(String, String)> {
         out.push((name.to_string(), s));
     }
     out.push(("pretty".into(), serde_json::to_string_pretty(v).unwrap()));
+    // the members of every object in reverse order (a JSON tree re-sorts them; a text does not)
+    {
+        fn rev(v: &Value, out: &mut String) {
+            match v {
+                Value::Array(a) => {
+                    out.push('[');
+                    for (i, e) in a.iter().enumerate() {
+                        if i > 0 {
+                            out.push(',');
+                        }
+                        rev(e, out);
+                    }
+                    out.push(']');
+                }
+                Value::Object(o) => {
+                    out.push('{');
+                    for (i, (k, e)) in o.iter().rev().enumerate() {
+                        if i > 0 {
+                            out.push(',');
+                        }
+                        out.push_str(&Value::String(k.clone()).to_string());
+                        out.push(':');
+                        rev(e, out);
+                    }
+                    out.push('}');
+                }
+                other => out.push_str(&other.to_string()),
+            }
+        }
+        let mut s = String::new();
+        rev(v, &mut s);
+        out.push(("members-reversed".into(), s));
+    }
     // data after a complete document: trailing whitespace is fine, anything else must be
     // judged the same way on every channel
     let compact = out[0].1.clone();
@@ -291,9 +324,11 @@ fn check_wrapper_channels(acc: &mut Acc, name: &str, doc: &Value) {
         let via: Vec<(&str, Guard<Option<MetadataWrapper>>)> = vec![
             ("MetadataWrapper::try_from_bytes", guard(|| MetadataWrapper::try_from_bytes(text.as_bytes()).ok())),
             ("MetablockBuilder::from_raw_metadata", guard(|| MetablockBuilder::from_raw_metadata(text.as_bytes()).ok().map(|b| b.build().metadata))),
-            ("MetadataWrapper::from_bytes(own type)", guard(|| {
-                let t = if doc.get("_type").and_then(|t| t.as_str()) == Some("layout") { MetadataType::Layout } else { MetadataType::Link };
-                MetadataWrapper::from_bytes(text.as_bytes(), t).ok()
+            ("MetadataWrapper::from_bytes(own type)", guard(|| match &base {
+                // the type the text was read as; a text that is neither must be neither here too
+                Some(MetadataWrapper::Layout(_)) => MetadataWrapper::from_bytes(text.as_bytes(), MetadataType::Layout).ok(),
+                Some(MetadataWrapper::Link(_)) => MetadataWrapper::from_bytes(text.as_bytes(), MetadataType::Link).ok(),
+                None => MetadataWrapper::from_bytes(text.as_bytes(), MetadataType::Layout).ok().or(MetadataWrapper::from_bytes(text.as_bytes(), MetadataType::Link).ok()),
             })),
         ];
         for (ch, got) in via {
@@ -480,7 +515,7 @@ pub fn run(tier: Tier) -> i32 {
     });
     c.acc = Acc::merge_all(accs);
     c.acc.note_n("documents", jobs.len() as u64);
-    c.rule = format!("documents: all C16 text documents (as MetadataWrapper and as Link/LayoutMetadata), every rule form standalone plus malformed rules, steps, inspections, byproducts, signed blocks, all fixture keys and signatures, C19 predicates and statements (through the wrappers and the typed structs), and node-level mutations of four fixtures (mostly rejected); each in spellings compact / pretty / whitespace-heavy / all strings \\u-escaped / one string token escaped at a time (up to {max_tokens} tokens per document) x 15 channels (incl. readers that return short reads and readers that are interrupted before every chunk), plus for MetadataWrapper the channels try_from_bytes / from_bytes / MetablockBuilder::from_raw_metadata; key ids of 8 wrong shapes wherever a key id is read; links with 70 KB (thorough: and 1.1 MB) of captured output; baseline = from_str on the compact spelling. distinct_nontrivial = (type, document) pairs");
+    c.rule = format!("documents: all C16 text documents (as MetadataWrapper and as Link/LayoutMetadata), every rule form standalone plus malformed rules, steps, inspections, byproducts, signed blocks, all fixture keys and signatures, C19 predicates and statements (through the wrappers and the typed structs), and node-level mutations of four fixtures (mostly rejected); each in spellings compact / pretty / whitespace-heavy / object members in reverse order / all strings \\u-escaped / one string token escaped at a time (up to {max_tokens} tokens per document) x 15 channels (incl. readers that return short reads and readers that are interrupted before every chunk), plus for MetadataWrapper the channels try_from_bytes / from_bytes / MetablockBuilder::from_raw_metadata; key ids of 8 wrong shapes wherever a key id is read; links with 70 KB (thorough: and 1.1 MB) of captured output; baseline = from_str on the compact spelling. distinct_nontrivial = (type, document) pairs");
     c.bound_completed = "complete within the listed documents".into();
     c.assume("serde_json's own parsing is identical across channels for serde_json::Value (the from_value and Json::deserialize channels go through it)");
     c.finish()
